@@ -134,7 +134,7 @@ def run(tier):
     cov["reference_hash_seeds"] = HASH_SEEDS
     cov["distinct_reference_texts_per_program"] = distinct
     cov["solver_cpu_s"] = st["solver_cpu_s"]
-    cov["explanation"] = "every API history of length <= %d over an alphabet of %d concrete actions (thorough: also every history of length <= 4 over the sub-alphabet that uses one options object) (create options object, set option/value incl. illegal values, convert with an object, convert without options, reseed random) is explored by CrossHair (the history is the symbolic variable, partitioned by its first action); conversions run concretely and are compared, after alpha-renaming of the __ol_ temporaries, with the same call made in a fresh process" % (L, n)
+    cov["explanation"] = "every API history of length <= %d over an alphabet of %d concrete actions (thorough: also every history of length <= 4 over the sub-alphabet that uses one options object) (create options object, set option/value incl. illegal values, convert with an object, convert without options, reseed random, convert a program that is refused half-way) is explored by CrossHair (the history is the symbolic variable, partitioned by its first action); conversions run concretely and are compared, after alpha-renaming of the __ol_ temporaries, with the same call made in a fresh process" % (L, n)
     cov["functions_encoded"] = ["oneliner.config.Cfg.__set__/__get__/__set_name__", "oneliner.config.Configs", "oneliner.convert_code_string (default options path and explicit options path)", "oneliner.utils.unique_id (through the reseed action)", "oneliner.presets.iter_wrapper (shared module-level AST, program 1)"]
     rep.assumptions += ["module state is made pristine at the start of every explored path by re-importing oneliner (so that one path cannot influence the next); the property itself is about state inside one history", "states = number of histories within the bound; each history is one path of the kernel", "process-level state: the reference of every (program, options) entry is computed in fresh processes under 4 hash seeds and must coincide; the histories run under the check's own hash seed", "bound: <= 2 options objects, %d programs, 3 values per option (2 legal + 1 illegal)" % nprog]
     return rep.finish()
